@@ -183,7 +183,7 @@ func c05Ctx(env *c05Env) *plush.Context {
 	return ctx
 }
 
-const c05Prelude = "<% let uf = fn(a) { return a } %><% let uf2 = fn(a, b) { return b } %>"
+const c05Prelude = "<% let uf = fn(a) { return a } %><% let uf2 = fn(a, b) { return b } %><% let ufu = fn(a) { return nopeInBody } %>"
 
 // fault expressions: the failing helper, and instrumented failing operations.
 var c05Faults = []struct {
@@ -204,6 +204,10 @@ var c05Faults = []struct {
 	{"partial-with-unknown-identifier", `partial("unk")`, false},
 	{"partial-feeder-fails", `partial("ferr")`, true},
 	{"layout-feeder-fails", `partial("plain", {layout: "ferr"})`, true},
+	// an unknown identifier that is not itself the condition / operand is a failure like any other
+	{"unknown-identifier-in-argument", `two(val("p", 1), nopeInArgument)`, false},
+	{"unknown-identifier-in-function-body", `ufu(val("p", 1))`, false},
+	{"unknown-identifier-indexed", `xs[val("p", 0)][nopeAsIndex]`, false},
 	{"contentOf-undefined-name", `contentOf(val("p", "never-defined"))`, false},
 }
 
